@@ -220,6 +220,8 @@ register(PropertySpec(
              "every sub-expression a node evaluates is linked below it in the node graph the reset and the invalidation walk"),
         Rule("CHECK-IS-PURE", _lazy("cacheidx", "rule_check_is_pure"), 2,
              "(shared with C20) asking whether a binding is covered does not mark it covered (a sub-query evaluated alone would hide its false rows from a later enclosing query)"),
+        Rule("RULE-ON-ENTER", _lazy("ruletree", "rule_rule_on_enter"), 2,
+             "a query is flagged as a rule both when it is written inside a rule block and when a rule block is opened on it"),
     ],
     explanation="History independence is absence of residue on the shared expression nodes. Decided: where residue is "
                 "written (discovered mechanically from dataclass fields and mutation sites reachable from evaluation "
@@ -348,6 +350,8 @@ register(PropertySpec(
              "memoised methods that depend on the position of a node in the tree are dropped with the per-evaluation state"),
         Rule("KEY-FILTER-KEEPS", _lazy("binding", "rule_key_filter_keeps"), 4,
              "filters that compute the variables identifying a row keep plain variables and one-to-many mappings"),
+        Rule("RULE-ON-ENTER", _lazy("ruletree", "rule_rule_on_enter"), 2,
+             "a query is flagged as a rule both when it is written inside a rule block and when a rule block is opened on it"),
     ],
     explanation="Attaching a branch rewires the condition tree in place; evaluation follows the left/right fields, not "
                 "the graph edges, so a selector that is attached in the graph but not stored in its parent's operand slot "
